@@ -87,6 +87,7 @@ func run(r *h.Run, idx int, sc scenario) {
 	}
 	var smu sync.Mutex
 	sets := map[int]map[string]packet.QOS{} // dial number -> broker-side subscription set of that connection
+	acceptedBefore := false
 	srv.OnDial = func(n int) error {
 		if kindOf(n) == "dial-refused" {
 			return ch.ErrRefused
@@ -106,8 +107,19 @@ func run(r *h.Run, idx int, sc scenario) {
 			c.FC.AddFault(bh.Fault{Dir: "send", K: 1, When: "before"})
 		}
 		recvd := 0
-		c.Peer.AutoReply = ch.Broker(false, func(in packet.Generic, def []packet.Generic) []packet.Generic {
+		// every other scenario: once a connection had been accepted the scripted
+		// broker reports "session present" (it still keeps no subscription from an
+		// earlier connection: the SUBSCRIBE may have been lost with it)
+		smu.Lock()
+		sp := idx%2 == 1 && acceptedBefore
+		smu.Unlock()
+		c.Peer.AutoReply = ch.Broker(sp, func(in packet.Generic, def []packet.Generic) []packet.Generic {
 			recvd++
+			if _, ok := in.(*packet.Connect); ok && kind != "no-connack" && kind != "connack-refused" {
+				smu.Lock()
+				acceptedBefore = true
+				smu.Unlock()
+			}
 			switch kind {
 			case "no-connack":
 				return nil
